@@ -1,16 +1,21 @@
 #!/bin/bash
-# usage: tools/trymutant.sh <patch.diff> <ID> [tier]   – apply a seeded change to /repo, run the check, undo it.
-# Prints CAUGHT/MISSED. Never leaves /repo modified.
+# usage: tools/trymutant.sh <patch.diff> <ID> [tier]
+# Runs the check of property <ID> against ajitpratap0/GoSQLX WITH a seeded change applied, and prints
+# CAUGHT/MISSED. The change is applied to a scratch worktree of /repo (outside /repo and /verif, removed
+# afterwards) and the check is pointed at it with VERIF_REPO – equivalent to `git -C /repo apply; ./check;
+# git -C /repo checkout -- .` but safe while other runs are reading /repo. Evidence and replays of the
+# real tree are not touched (VERIF_NOEVIDENCE).
 set -u
 patch=$(readlink -f "$1"); id=$2; tier=${3:-quick}
-cd /repo || exit 2
-if ! git diff --quiet; then echo "trymutant: /repo has uncommitted changes" >&2; exit 2; fi
-git apply "$patch" || { echo "trymutant: patch does not apply" >&2; exit 2; }
-trap 'git -C /repo checkout -- . ; git -C /repo clean -fdq -- demo_mutant 2>/dev/null' EXIT
+wt=$(mktemp -d /var/tmp/mutrepo.XXXXXX)
+rmdir "$wt"
+git -C /repo worktree add -q --detach "$wt" HEAD || { echo "trymutant: cannot create worktree" >&2; exit 2; }
+cleanup() { git -C /repo worktree remove --force "$wt" 2>/dev/null; rm -rf "$wt"; git -C /repo worktree prune; rm -f "$out"; }
 out=$(mktemp /var/tmp/trymutant.XXXXXX)
-(cd /verif && VERIF_NOEVIDENCE=1 ./check "$id" "$tier") > "$out" 2>&1
+trap cleanup EXIT
+git -C "$wt" apply "$patch" || { echo "trymutant: patch does not apply" >&2; exit 2; }
+(cd /verif && VERIF_REPO="$wt" VERIF_NOEVIDENCE=1 ./check "$id" "$tier") > "$out" 2>&1
 rc=$?
 grep -E "^VIOLATION|^KNOWN-FINDING|^\[C[0-9]+\] eval|INFRA" "$out" | cut -c1-260 | head -12
 grep -A2 "^VIOLATION" "$out" | grep "^    [a-zA-Z]" | grep -v "oracle=" | cut -c1-400 | head -4
 case $rc in 1) echo "RESULT: CAUGHT ($id $tier)";; 0) echo "RESULT: MISSED ($id $tier)";; *) echo "RESULT: INFRA rc=$rc"; tail -5 "$out";; esac
-rm -f "$out"
